@@ -735,7 +735,12 @@ def generate_ofm_scaling_for_pooling(emit: CommandStreamEmitter, pool_op: NpuPoo
         # kernel height == kernel width == 1 is always true in this case
         # Normally the scale is maximised, to get maximum precision, which means that
         # if rescale != 1, scale need to consider the number of bits needed for rescaling
-        if ofm_quant.scale_f32 is not None and ifm_quant.scale_f32 is not None:
+        if (
+            ofm_quant is not None
+            and ifm_quant is not None
+            and ofm_quant.scale_f32 is not None
+            and ifm_quant.scale_f32 is not None
+        ):
             rescale = np.double(ifm_quant.scale_f32) / np.double(ofm_quant.scale_f32)
             rescale_bits = 0
             if kernel.height == kernel.width == 1:
